@@ -47,6 +47,8 @@ def configurations(tier):
             for size in sizes_for(cname, tier):
                 if any_code and codes.qubit_count(cname, size) > (40 if tier == 'quick' else 70):
                     continue
+                if dec == 'MemoryBeliefPropagationDecoder' and codes.qubit_count(cname, size) > 30:
+                    continue      # pure-Python BP: keep it on small lattices
                 code_defs = [(None, None)]
                 if any_code and len(variants) > 1:
                     code_defs.append(variants[1])          # deformed => non-CSS
